@@ -146,18 +146,21 @@ func check(c Case) string {
 			go func(g int) {
 				defer wg.Done()
 				s := c.A + uint64(g)*0x9E3779B97F4A7C15 | 1
+				var runP uint32
+				var runD uint64
 				for i := uint64(0); i < c.B && msgs[g] == ""; i++ {
 					s ^= s << 13
 					s ^= s >> 7
 					s ^= s << 17
-					a, p := uint16(s>>40)|1, uint32(s)|0x10000
+					// the exponent (and the divisor below) stays the same for a run of calls, as when a matrix row is filled
+					if i%64 == 0 {
+						runP, runD = uint32(s>>7)|0x10000, (s>>29)|1
+					}
+					a, p := uint16(s>>40)|1, runP
 					if got := uint16(gf2p16.T(a).Pow(p)); got != gf16.FPow(a, uint64(p)) {
 						msgs[g] = fmt.Sprintf("with 8 goroutines calling Pow at the same time: Pow(%#x,%d)=%#x, reference %#x", a, p, got, gf16.FPow(a, uint64(p)))
 					}
-					pp, d := s, (s>>17)|1
-					if d > pp {
-						pp, d = d, pp
-					}
+					pp, d := s|1<<63, runD
 					q, r := gf2.Poly64(pp).Div(gf2.Poly64(d))
 					_, lo := refPolyMul128(uint64(q), d)
 					if lo^uint64(r) != pp || (r != 0 && bits.Len64(uint64(r)) >= bits.Len64(d)) {
